@@ -24,7 +24,7 @@ ASSUMPTIONS = [
 ]
 OBLIGATIONS = {"order=1": 20, "order=10": 10, "nan-innov": 30, "nan-first-steps": 20,
                "nan-inputs": 30, "len=0": 5, "len=1": 5, "default-mean": 30,
-               "explicit-ini": 30, "reject:order": 20, "reject:nan-param": 20,
+               "explicit-ini": 30, "explicit-ini=0": 10, "reject:order": 20, "reject:nan-param": 20,
                "negative-coef": 30}
 EPS = 2.0 ** -52
 
@@ -108,6 +108,12 @@ def gen_case(rng, it, tier):
     e = rng.normal(size=n) * sc
     mean = float(rng.normal() * sc * rng.choice([0, 1, 10]))
     ini = float(mean + rng.normal() * sc * rng.choice([0, 1, 5]))
+    if it % 5 == 0:
+        ini = 0.0                      # explicit initial value 0 with a non-zero mean
+    elif it % 5 == 1:
+        ini = -mean
+    if it % 9 == 0:
+        mean = 0.0
     nanpat = it % 4
     tags = []
     if n > 0 and nanpat == 1:
@@ -156,6 +162,8 @@ def run_case(ctx, case):
     kw = {"sim_mean": mean, "sim_ini": ini} if explicit else {"sim_mean": mean}
     if explicit:
         ctx.tag("explicit-ini")
+        if ini == 0.0 and mean != 0.0:
+            ctx.tag("explicit-ini=0")
     ini_eff = ini if explicit else mean
     ctx.api("armodel_sim")
     params = phi if (p > 1 or case.get("scalar") is False) else float(phi[0])
